@@ -5,6 +5,7 @@ import (
 	"go/ast"
 	"go/token"
 	"go/types"
+	"math/big"
 	"sort"
 	"strings"
 )
@@ -1106,6 +1107,70 @@ func checkC16(p *Prog, r *Report) {
 			return true
 		})
 		r.Check(ok && nRet > 0, "decoder "+f.Name+" stores through its receiver before reporting success", p.Pos(f.Body.Pos()), "every 'return nil' preceded by a store through the receiver", "a path returns nil without storing the decoded value: decoding (for instance an empty list) into a variable that already holds a value leaves the old value there, so decode(encode(x)) != x")
+	}
+
+	// ---- R16.10 every priority that is written is read back ------------------------------------------------------
+	r.Rule("R16.10", "UnmarshalCandidate accepts every priority value Marshal can write: the parsed 10-digit priority is refused, if at all, only above 2^32-1 — a smaller bound (2^31-1, say) rejects the line of a candidate whose priority has the top bit set, which constructors accept and a peer-reflexive candidate can carry.", 1)
+	if f := p.Fn("UnmarshalCandidate"); r.Anchor("UnmarshalCandidate", f != nil) {
+		objs := map[types.Object]bool{}
+		for changed := true; changed; {
+			changed = false
+			walkBody(f, func(x ast.Node) bool {
+				as, ok := x.(*ast.AssignStmt)
+				if !ok {
+					return true
+				}
+				mark := func(l ast.Expr) {
+					if id, ok := unparen(l).(*ast.Ident); ok && id.Name != "_" {
+						if o := p.ObjOf(id); o != nil && !objs[o] {
+							objs[o] = true
+							changed = true
+						}
+					}
+				}
+				if len(as.Rhs) == 1 {
+					if cc, ok := unparen(as.Rhs[0]).(*ast.CallExpr); ok && p.CalleeName(cc) == "ice.readCandidateDigitToken" && len(cc.Args) == 3 {
+						if v, _ := p.ConstVal(cc.Args[2]); v == "10" && len(as.Lhs) >= 1 {
+							mark(as.Lhs[0])
+						}
+					}
+				}
+				if len(as.Lhs) == len(as.Rhs) {
+					for i, rh := range as.Rhs {
+						if id, ok := unparen(rh).(*ast.Ident); ok && objs[p.ObjOf(id)] {
+							mark(as.Lhs[i])
+						}
+					}
+				}
+				return true
+			})
+		}
+		bad := ""
+		limit := new(big.Int).SetUint64(4294967295)
+		walkBody(f, func(x ast.Node) bool {
+			be, ok := x.(*ast.BinaryExpr)
+			if !ok {
+				return true
+			}
+			switch be.Op {
+			case token.LSS, token.GTR, token.LEQ, token.GEQ:
+			default:
+				return true
+			}
+			for _, side := range [][2]ast.Expr{{be.X, be.Y}, {be.Y, be.X}} {
+				id, isID := unparen(side[0]).(*ast.Ident)
+				if !isID || !objs[p.ObjOf(id)] {
+					continue
+				}
+				if v, isC := p.ConstVal(side[1]); isC {
+					if n, okN := new(big.Int).SetString(v, 10); okN && n.Sign() > 0 && n.Cmp(limit) < 0 {
+						bad = "the parsed priority is compared with " + v + " at " + p.Pos(be.Pos())
+					}
+				}
+			}
+			return true
+		})
+		r.Check(len(objs) > 0 && bad == "", "UnmarshalCandidate bounds the priority at 2^32-1 or not at all", p.Pos(f.Body.Pos()), "no bound below 4294967295", bad+": priorities between that bound and 2^32-1, which Marshal writes, do not parse")
 	}
 
 	// ---- R16.9 a separator ends a token, whatever the token's length ------------------------------------------
